@@ -41,6 +41,62 @@ type DiffCase struct {
 	// Again > 0: afterwards New is called on one pair of slices repeatedly,
 	// with in-place updates of their contents in between (up to 3 rounds).
 	Again int `json:"again,omitempty"`
+	// Big, when set, stands for L and R (which are then empty in the case):
+	// two long inputs over a small alphabet, so that very many pairs of equal
+	// lines exist (see BigSpec).
+	Big *BigSpec `json:"big,omitempty"`
+}
+
+// BigSpec describes a pair of long, dense inputs: LN and RN lines drawn from
+// K different lines by a generator seeded with Seed.  Mode 0: both sides are
+// drawn independently (about LN*RN/K pairs of equal lines); mode 1: Right is
+// Left with about one line in eight dropped, replaced or preceded by a new
+// line (RN is not used).
+type BigSpec struct {
+	LN   int    `json:"ln"`
+	RN   int    `json:"rn"`
+	K    int    `json:"k"`
+	Seed uint64 `json:"seed"`
+	Mode int    `json:"mode,omitempty"`
+}
+
+func (b *BigSpec) String() string {
+	if b.Mode == 1 {
+		return fmt.Sprintf("%d lines over %d different lines, Right a copy with about 1 line in 8 edited (seed %d)", b.LN, b.K, b.Seed)
+	}
+	return fmt.Sprintf("%d and %d lines drawn from %d different lines (seed %d)", b.LN, b.RN, b.K, b.Seed)
+}
+
+func (b *BigSpec) lines() (l, r []string) {
+	k := max(b.K, 1)
+	alpha := make([]string, k)
+	for i := range alpha {
+		alpha[i] = fmt.Sprintf("line %d", i)
+	}
+	rng := vk.NewRNG(b.Seed)
+	l = make([]string, 0, max(b.LN, 0))
+	for len(l) < b.LN {
+		l = append(l, alpha[rng.Intn(k)])
+	}
+	if b.Mode == 1 {
+		for _, s := range l {
+			switch rng.Intn(24) {
+			case 0: // dropped
+			case 1:
+				r = append(r, alpha[rng.Intn(k)])
+			case 2:
+				r = append(r, alpha[rng.Intn(k)], s)
+			default:
+				r = append(r, s)
+			}
+		}
+		return l, r
+	}
+	r = make([]string, 0, max(b.RN, 0))
+	for len(r) < b.RN {
+		r = append(r, alpha[rng.Intn(k)])
+	}
+	return l, r
 }
 
 // Step is one further operation on a Diff.  Op "ctx" is AddContext(N) (it may
@@ -99,6 +155,9 @@ func (c DiffCase) String() string {
 		for _, st := range c.steps() {
 			lay += "." + st.String()
 		}
+	}
+	if c.Big != nil {
+		return fmt.Sprintf("L, R = %s n=%d%s", c.Big, c.N, lay)
 	}
 	return fmt.Sprintf("L=%s R=%s n=%d%s", showLines(c.L), showLines(c.R), c.N, lay)
 }
@@ -301,6 +360,11 @@ func hasRepeat(xs ...[]string) bool {
 
 func runC13(c DiffCase, o *vk.Obs) string {
 	c.L, c.R = expandLines(c.L), expandLines(c.R)
+	if c.Big != nil {
+		c.L, c.R = c.Big.lines()
+		o.Class("long_dense_inputs")
+		o.ClassIf(len(c.L)*len(c.R)/max(c.Big.K, 1) > 1<<16, "long_dense_inputs_over_65536_equal_pairs")
+	}
 	L, R := slices.Clone(c.L), slices.Clone(c.R)
 	if c.L == nil {
 		L = nil
